@@ -283,24 +283,79 @@ def purge(ctx: Any) -> List[Ob]:
     f = prog.func(CACHE + '.async_expire')
     now = f.params[1]
     me = f.params[0]
-    ret = single_return_expr(f)
+    cfg = cfg_of(f.node)
+    rets = [n for n in cfg.nodes if n.kind == 'return']
+    # the selection variable: the name returned on the path that scans
+    sel_names = sorted({n.ast.value.id for n in rets if isinstance(n.ast.value, ast.Name)})
+    early = [n for n in rets if not isinstance(n.ast.value, ast.Name)]
+    obs.append(ob(R, f, f'return {sel_names}', 'the purge returns the selection it computed', len(sel_names) == 1))
+    selv = sel_names[0] if sel_names else '?'
     rem = [c for c in walk_local_ordered(f.node) if isinstance(c, ast.Call) and call_name(c) in ('async_remove_records', '_async_remove')]
-    sel = None
-    if isinstance(ret, ast.Name):
-        for st in walk_local_ordered(f.node):
-            if isinstance(st, ast.Assign) and any(isinstance(t, ast.Name) and t.id == ret.id for t in st.targets):
-                sel = st.value
-    obs.append(ob(R, f, ret, 'the purge returns the selection it computed', sel is not None))
-    obs.append(ob(R, f, rem[0] if rem else 'async_remove_records', 'the purge removes exactly the selection it returns', len(rem) == 1 and isinstance(ret, ast.Name) and [norm(a) for a in rem[0].args] == [ret.id]))
+    obs.append(ob(R, f, rem[0] if rem else 'async_remove_records', 'the purge removes exactly the selection it returns', len(rem) == 1 and [norm(a) for a in rem[0].args] == [selv]))
+
+    def is_expiry_test(cond: ast.AST, rvar: str) -> bool:
+        """cond is `r.is_expired(now)` or an equivalent `r.get_expiration_time(100) <= now`."""
+        if isinstance(cond, ast.Call) and call_name(cond) == 'is_expired' and norm(cond.func.value) == rvar and [norm(a) for a in cond.args] == [now]:
+            return True
+        if isinstance(cond, ast.Compare):
+            from .common import expand
+
+            e = expand(f, cond)
+
+            def sym(x: ast.AST) -> Optional[str]:
+                if isinstance(x, ast.Call) and call_name(x) == 'get_expiration_time' and norm(x.func.value) == rvar and len(x.args) == 1 and prog.try_fold(f.module, x.args[0]) == (True, 100):
+                    return 'EXP'
+                if isinstance(x, ast.Name) and x.id == now:
+                    return 'NOW'
+                return None
+
+            try:
+                return lf.same_cmp(lf.comparison(prog, f.module, e, sym), lf.parse_cmp('EXP - NOW <= 0'))
+            except lf.NotLinear:
+                return False
+        return False
+
     good = False
+    sel = None
+    for st in walk_local_ordered(f.node):
+        if isinstance(st, (ast.Assign, ast.AnnAssign)) and norm(st.targets[0] if isinstance(st, ast.Assign) else st.target) == selv and isinstance(st.value, ast.ListComp):
+            sel = st.value
     if isinstance(sel, ast.ListComp) and len(sel.generators) == 2:
         g0, g1 = sel.generators
         over_all = isinstance(g0.iter, ast.Call) and isinstance(g0.iter.func, ast.Attribute) and g0.iter.func.attr == 'values' and self_attr(g0.iter.func.value, me) == 'cache' and not g0.ifs
         per_rec = norm(g1.iter) == norm(g0.target) and len(g1.ifs) == 1
-        cond = g1.ifs[0] if per_rec else None
-        pred = isinstance(cond, ast.Call) and call_name(cond) == 'is_expired' and norm(cond.func.value) == norm(g1.target) and [norm(a) for a in cond.args] == [now]
-        good = over_all and per_rec and pred and norm(sel.elt) == norm(g1.target)
-    obs.append(ob(R, f, sel if sel is not None else 'selection', 'the selection is every cached record r with r.is_expired(now), over all names', good))
+        good = over_all and per_rec and is_expiry_test(g1.ifs[0], norm(g1.target)) and norm(sel.elt) == norm(g1.target)
+    else:
+        # explicit loops: for bucket in self.cache.values(): for r in bucket: if <expired>: sel.append(r)
+        for lp in walk_local_ordered(f.node):
+            if isinstance(lp, ast.For) and isinstance(lp.iter, ast.Call) and isinstance(lp.iter.func, ast.Attribute) and lp.iter.func.attr == 'values' and self_attr(lp.iter.func.value, me) == 'cache':
+                inner = [x for x in lp.body if isinstance(x, ast.For) and norm(x.iter) == norm(lp.target)]
+                if len(inner) == 1:
+                    rvar = norm(inner[0].target)
+                    for t in ast.walk(inner[0]):
+                        if isinstance(t, ast.If) and is_expiry_test(t.test, rvar):
+                            apps = [c for b in t.body for c in ast.walk(b) if isinstance(c, ast.Call) and call_name(c) == 'append' and norm(c.func.value) == selv and [norm(a) for a in c.args] == [rvar]]
+                            others = [c for c in ast.walk(f.node) if isinstance(c, ast.Call) and call_name(c) in ('append', 'extend', 'insert') and isinstance(c.func, ast.Attribute) and norm(c.func.value) == selv]
+                            good = len(apps) == 1 and len(others) == 1
+    obs.append(ob(R, f, sel if sel is not None else 'selection loop', 'the selection is every cached record r with r.is_expired(now), over all names', good))
+    # a purge that can return without scanning relies on state: every writer of a record's lifetime must maintain that state
+    for e_ in early:
+        guards = [t for t in cfg.nodes if t.kind == 'test' and cfg.dominates(t, e_)]
+        gattrs = sorted({x.attr for t in guards for x in ast.walk(t.ast) if isinstance(x, ast.Attribute) and self_attr(x, me)})
+        rec = prog.cls(REC)
+        writers = set()
+        for nm in ('set_created_ttl', 'reset_ttl'):
+            for s_ in ctx.cg.callers_of(rec.methods[nm]):
+                if s_.caller.cls is not rec:
+                    writers.add(s_.caller)
+        writers.add(prog.func(CACHE + '._async_add'))
+        stale = []
+        for w in sorted(writers, key=lambda x: x.full):
+            stored = {t.attr for t, _ in attr_stores(w.node)}
+            missing = [a for a in gattrs if a not in stored]
+            if missing or not gattrs:
+                stale.append(f'{w.qual} changes record lifetimes without maintaining {missing or "the guard state"}')
+        obs.append(ob(R, f, e_.ast, f'a purge that returns without scanning (guard on {gattrs}) is sound only if every writer of a record lifetime maintains that state', not stale, '; '.join(stale)))
     # periodic cleanup
     g = prog.func('zeroconf._engine.AsyncEngine._async_cache_cleanup')
     ru = [c for c in walk_local_ordered(g.node) if isinstance(c, ast.Call) and call_name(c) == 'RecordUpdate']
@@ -330,6 +385,15 @@ def purge(ctx: Any) -> List[Ob]:
         if used:
             obs.append(ob(R, f2, f'lifetime predicates used: {sorted(used)}', 'every consumer of record lifetime is in the binding table (a new consumer must be classified)', False, 'not in the binding table'))
     return obs
+
+
+@rule('C05.REFRESH', 'N', expect_min=1)
+def refresh(ctx: Any) -> List[Ob]:
+    """A refreshed record gets the creation time and the (floored) TTL of the record just received --
+    otherwise it is purged before its latest TTL runs out."""
+    from .c06 import refresh_obligations
+
+    return refresh_obligations(ctx, 'C05.REFRESH')
 
 
 LIFETIME_FORMS = {
@@ -415,9 +479,9 @@ EXPLANATION = (
     'object and drops an equal key first -- the invariant without which by-key readers (purge, by-details lookups) and by-value '
     'readers (unique lookup, refresh) disagree. C05.TWOINDEX (necessary): add/remove sibling agreement and bucket hygiene. '
     'C05.KEYS (decided): lower-case provenance of every index key. C05.OWN (decided): who may mutate the stores and the lifetime '
-    'fields (owner table). C05.PURGE (decided): purge selects/removes/returns one list by is_expired(now); cleanup reports each once; '
+    'fields (owner table). C05.REFRESH (necessary): a refresh copies the received record\'s current (created, ttl), not a stale snapshot. C05.PURGE (decided): purge selects/removes/returns one list by is_expired(now); cleanup reports each once; '
     'each lifetime consumer uses the predicate the property assigns. C05.LIFETIME (decided): lifetime predicates normalised to linear '
     'forms and compared with RFC 6762 section 10 (100 % / 50 % / 25 % of TTL). Not decided: agreement with the reference model over '
     'all histories [X].'
 )
-RULES = [kv, twoindex, keys, own, purge, lifetime]
+RULES = [kv, twoindex, keys, own, purge, refresh, lifetime]
